@@ -17,6 +17,8 @@ DOC = {
  "C03.R3": "K14: no task root / public future carries an un-raced callback (R tag); all 5 hooks x 2 runtimes reach the sink",
  "C03.R4": "outcome table of process_message: Signal -> signal(); Stop -> stop(reason); sink Err(signal) -> signal(); ok -> ok(); constructors' constants",
  "C03.R6": "stop / kill requests are always attempted: send_stop and send_signal take their port slot on every path, consult no status, deliver their argument; ActorCell::stop/kill always forward",
+ "C03.R7": "the message step does not suspend between the completed priority pick and the start of the handler race (no await in between)",
+ "C03.R8": "kill_and_wait / stop_and_wait / drain_and_wait issue exactly their own kind of request, on every path",
  "C03.R5": "who-may-touch: stop receiver only by priority listen and Drop; signal receiver only by sink, listen and Drop",
 }
 
@@ -242,6 +244,55 @@ def r6(run, db):
             run.check(len(cs) == 1 and f.must_pass(f.entry(), [cs[0].site]), "ActorCell::%s|forwards" % nm, "ActorCell::%s always forwards to %s" % (nm, inner), "ActorCell::%s does not always forward" % nm, f.where())
 
 
+def r7(run, db):
+    """between the moment the next piece of work was picked (the priority listen completed) and the start of its handler
+    (the race against the signal) the step does not suspend: a stop or a supervision event arriving in such a gap is not
+    re-examined, so a lower-priority handler starts after the higher-priority request was made"""
+    m = model(db)
+    for rt in m.runtimes():
+        pb = m.proc_body(rt)
+        run.saw(len(pb.blocks), pb)
+        lids = set(f.id for f, c, s in m.listen_fns())
+        lroots = set(db.root_of(db.fns[i]).id for i in lids) | lids
+        lcalls = [c for c in pb.calls() if (c.callee in lroots or c.resolved in lroots)]
+        run.anchor("%s listen call in the step" % rt, len(lcalls), 1, pb.where())
+        if not lcalls:
+            continue
+        law = await_of_call(pb, lcalls[0])
+        run.anchor("%s await of the listen" % rt, len(law), 1, pb.where())
+        if not law:
+            continue
+        sinks = [c for h in ("handle", "handle_supervisor_evt") for c in m.sink_calls_for(rt + "." + h) if c.fn.id == pb.id]
+        run.anchor("%s handler races in the step" % rt, len(sinks), 2, pb.where())
+        allaw = awaits(pb)
+        for c in sinks:
+            between = [a for a in allaw if a.poll.bb != law[0].poll.bb and law[0].completes_before(a.poll.site) and pb.dominates(a.poll.site, c.site)]
+            between = [a for a in between if not any(x.bb == c.bb for x in a.future_calls())]
+            run.check(not between, "%s|no-suspension-between-pick-and-handler@%s" % (rt, sinks.index(c)), "no await lies between the completed pick and the start of the handler race",
+                      "the step suspends (%s) after picking its next item and before starting the handler: a stop()/supervision event arriving in that gap is overtaken by the already-picked lower-priority item" % [a.poll.name.split("::")[-2:] for a in between][:2], c.where())
+
+
+def r8(run, db):
+    """every `*_and_wait` convenience delivers the request its name says, on every path: kill -> the Kill signal, stop -> the
+    stop port, drain -> drain.  (A kill variant that stops or drains lets handlers and post_stop run after a `kill`.)"""
+    want = {"kill_and_wait": r"send_signal(_and_wait)?$", "stop_and_wait": r"send_stop(_and_wait)?$", "drain_and_wait": r"::drain(_and_wait)?$"}
+    other = {"kill_and_wait": r"send_stop|::drain|::stop$", "stop_and_wait": r"send_signal|::drain|::kill$", "drain_and_wait": r"send_signal|send_stop|::kill$|::stop$"}
+    n = 0
+    for nm in want:
+        bodies = [f for f in db.crate_fns("ractor") if re.search(r"ActorCell::%s(::\{closure#0\})?$" % nm, f.id)]
+        bodies = [f for f in bodies if f.kind == "coroutine"] or bodies
+        for f in bodies:
+            n += 1
+            run.saw(len(f.blocks), f)
+            good = [c for c in f.calls() if c.callee and re.search(want[nm], c.callee) and "ActorProperties" in c.callee]
+            bad = [c for c in f.calls() if c.callee and re.search(other[nm], c.callee) and ("ActorProperties" in c.callee or "ActorCell" in c.callee)]
+            run.check(bool(good) and f.must_pass(f.entry(), [c.site for c in good]), "%s|delivers-own-request" % nm, "%s issues its own request on every path" % nm,
+                      "%s has a path that does not issue the request its name promises" % nm, f.where())
+            run.check(not bad, "%s|no-foreign-request" % nm, "%s issues no other kind of request" % nm,
+                      "%s issues %s: e.g. a kill that only drains lets the running handler finish, the backlog be handled and post_stop run after the `kill`" % (nm, [c.name.split("::")[-1] for c in bad]), f.where())
+    run.anchor("*_and_wait bodies", n, 3)
+
+
 Q = ["dflt", "rc"]
 TH = ["dflt", "rc", "atr", "astd", "mon", "opv2"]
 RULES = [
@@ -251,6 +302,8 @@ RULES = [
     {"id": "C03.R3", "fn": r3, "quick": Q, "thorough": TH},
     {"id": "C03.R4", "fn": r4, "quick": Q, "thorough": TH},
     {"id": "C03.R5", "fn": r5, "quick": Q, "thorough": TH},
+    {"id": "C03.R7", "fn": r7, "quick": Q, "thorough": TH},
+    {"id": "C03.R8", "fn": r8, "quick": Q, "thorough": TH},
 ]
 from .positive import control
 RULES.append({"id": "C03.P", "fn": control('select'), "quick": ["pos"], "thorough": ["pos"]})
